@@ -87,6 +87,30 @@ Proof.
   - intros k _. destruct (Nat.eqb k 0); ring.
 Qed.
 
+(* --- (A @ u).dot(v): a constant, possibly non-symmetric matrix on the LEFT of the field ---
+   entry ((a,d),(b,e)) = A[e][d] * int N_a N_b   (and u @ A gives A[d][e]: LMatL of the transpose) *)
+Definition form_Au_v (A : nat -> nat -> R) : form := FContr (LMatL A LVal) LVal.
+
+Theorem form_Au_dot_v : forall A a d b e, (d < n)%nat -> (e < n)%nat ->
+  entry true (form_Au_v A) a d b e = sumn nP (fun p => w p * (A e d * (N p a * N p b))).
+Proof.
+  intros A a d b e Hd He. unfold entry, form_Au_v. apply sumn_ext; intros p _. f_equal. simpl.
+  set (x := fun k => sumn n (fun m => A k m * (if Nat.eqb m d then N p a else 0))).
+  set (y := fun k => if Nat.eqb k e then N p b else 0).
+  transitivity (sumn n (fun k => sumn n (fun l => (if Nat.eqb l 0 then x k else 0) * (if Nat.eqb l 0 then y k else 0)))).
+  - apply sumn_ext; intros k _. apply sumn_ext; intros l _. unfold x, y.
+    destruct (Nat.eqb l 0).
+    + reflexivity.
+    + rewrite (sumn_ext n _ (fun _ => 0)) by (intros; ring). rewrite sumn_zero. ring.
+  - rewrite contr_col0. unfold y.
+    rewrite (sumn_ext n _ (fun k => if Nat.eqb k e then x k * N p b else 0)).
+    + rewrite (sumn_delta n e (fun k => x k * N p b)) by exact He. unfold x.
+      rewrite (sumn_ext n _ (fun m => if Nat.eqb m d then A e m * N p a else 0)).
+      * rewrite (sumn_delta n d (fun m => A e m * N p a)) by exact Hd. ring.
+      * intros m _. destruct (Nat.eqb m d); ring.
+    + intros k _. destruct (Nat.eqb k e); ring.
+Qed.
+
 (* --- linear forms: f * v --- *)
 Definition lentry (ud : bool) (f : nat -> R) (a d : nat) : R :=
   sumn nP (fun p => w p * (f p * dlin n LVal p (bnd ud a d p) 0%nat 0%nat)).
@@ -199,6 +223,7 @@ End Elastic.
 
 Print Assumptions form_grad_grad_eq_GradUGradV.
 Print Assumptions form_uv_eq_UV_vector.
+Print Assumptions form_Au_dot_v.
 Print Assumptions form_elastic_eq_LinearizedElasticity_3d.
 
 (* non-vacuity: a 1-point rule, two nodes *)
